@@ -131,7 +131,7 @@ theorem IsPanic_witness : IsPanic (errP (.goErr "panic: args")) :=
   ⟨_, rfl, by decide +kernel⟩
 
 /-- without `safe` the step theorem fails: code that is not `safe` does panic -/
-theorem exec_unsafe_witness (m : MS) :
+theorem exec_needs_safe_witness (m : MS) :
     safe [.getConst (.atom "a"), .exit] 0 0 [] = false ∧
     ∃ p, exec 1 [.getConst (.atom "a"), .exit] [] .done [] [] [] 0 m = some (p, m) ∧ IsPanic p :=
   ⟨by decide, _, by simp only [exec], IsPanic_witness⟩
